@@ -80,10 +80,12 @@ def check_store(ctx, spec, vcfs, work, nparts, ccs, label):
     try:
         got_fixed = {"CHROM": [str(v[0]) for v in icf.fields["CHROM"].values], "POS": [int(v[0]) for v in icf.fields["POS"].values],
                      "REF": [str(v[0]) for v in icf.fields["REF"].values], "ALT": [[str(x) for x in v] for v in icf.fields["ALT"].values],
+                     "rlen": [int(v[0]) for v in icf.fields["rlen"].values],
                      "ID": [None if v is None else [str(x) for x in v] for v in icf.fields["ID"].values],
                      "FILTERS": [sorted(str(x) for x in v) for v in icf.fields["FILTERS"].values]}
         want_fixed = {"CHROM": [spec["contigs"][r["contig"]][0] for r in src], "POS": [r["pos"] for r in src],
                       "REF": [r["ref"] for r in src], "ALT": [list(r.get("alt") or []) for r in src],
+                      "rlen": [vcfgen.rlen_of(r) for r in src],                                   # END - POS + 1 when END is given
                       "ID": [None if r.get("id") is None else [r["id"]] for r in src],          # one value per record, never split
                       "FILTERS": [[] if r.get("filter") is None else (["PASS"] if len(r["filter"]) == 0 else sorted(r["filter"])) for r in src]}
         for name in want_fixed:
